@@ -89,6 +89,21 @@ def job_rpy(ctx, lo, hi):
             for (key, ang, qref, tol), q in zip(rows[::5], QN):
                 e = min(np.abs(q - qref).max(), np.abs(q + qref).max())
                 ctx.expect(e <= 1e-12, 'rpy2q(N-by-3 degrees, in_deg=True): rows = qz(yaw) qy(pitch) qx(roll)', key, q, qref, 1e-12)
+        # N-row batches of every small size through the function and the array class (N = 3 is a square 3-by-3 block of angles)
+        for nb in (1, 2, 3, 4, 5):
+            for off in (0, 7):
+                sub = rows[off:off + nb]
+                if len(sub) < nb:
+                    continue
+                AngN = np.array([r[1] for r in sub])
+                for nm, fn in (('rpy2q(N-by-3)', lambda: np.asarray(O.rpy2q(AngN.copy()), float).T), ('QuaternionArray(rpy=N-by-3)', lambda: np.asarray(QuaternionArray(rpy=AngN.copy()), float))):
+                    try:
+                        QN_ = fn()
+                    except Exception as ex:
+                        ctx.fail(f'{nm} raises', f'roll={roll:.12g} N={nb} offset={off}', repr(ex)[:160], 'N quaternions')
+                        continue
+                    okN = QN_.shape == (nb, 4) and all(min(np.abs(QN_[j] - sub[j][2]).max(), np.abs(QN_[j] + sub[j][2]).max()) <= 1e-12 for j in range(nb))
+                    ctx.expect(okN, f'{nm}: row j = qz(yaw) qy(pitch) qx(roll) of triple j, for every small N', f'roll={roll:.12g} N={nb} offset={off}', QN_, [r[2].tolist() for r in sub], 1e-12)
         # array route, all rows of this roll at once
         Ang = np.array([r[1] for r in rows])
         QA = QuaternionArray(rpy=Ang.copy())
@@ -152,6 +167,18 @@ def job_axang(ctx, lo, hi):
             ctx.expect(err <= 1e-7, f'{route}: same rotation', key, [ax2, an2], [n, ang], 1e-7)
             if wellc and ok:
                 ctx.expect(abs(an2 - ang) <= 1e-9 and np.abs(ax2 - n).max() <= 1e-9, f'{route}: parameters', key, [ax2, an2], [n, ang], 1e-9)
+        # the antipode -q (negative scalar part; also what q**a and the Euler routes produce) is the same rotation through both routes,
+        # and the method and the function agree on it
+        outs = {}
+        for route, fn in (('Quaternion.to_axang', lambda: Quaternion((-qref).copy()).to_axang()), ('quat2axang', lambda: O.quat2axang((-qref).copy()))):
+            ax2, an2 = fn()
+            ax2 = np.asarray(ax2, float)
+            ok = np.all(np.isfinite(ax2)) and np.isfinite(an2) and float(ax2 @ ax2) > 0
+            err = ang if (not np.any(ax2) and an2 == 0.0) else (rq.qangle(rq.axang2q(ax2, float(an2)), qref) if ok else float('inf'))
+            ctx.expect(err <= 1e-7, f'{route}(-q): same rotation as q', key, [ax2, an2], [n, ang], 1e-7)
+            outs[route] = rq.axang2q(ax2, float(an2)) if ok and np.any(ax2) else np.array([1.0, 0, 0, 0])
+        ctx.expect(rq.qangle(outs['Quaternion.to_axang'], outs['quat2axang']) <= 1e-7, 'Quaternion.to_axang and quat2axang describe the same rotation for -q', key,
+                   outs['Quaternion.to_axang'], outs['quat2axang'], 1e-7)
         # axis-angle -> quaternion
         q2 = np.asarray(O.axang2quat((n * 2.5).copy(), ang))
         ctx.expect(min(np.abs(q2 - qref).max(), np.abs(q2 + qref).max()) <= 1e-12, 'axang2quat = reference', key, q2, qref, 1e-12)
@@ -175,6 +202,10 @@ def job_axang(ctx, lo, hi):
             ctx.expect(err <= 1e-7, f'{route}: same rotation', key, [ax2, an2], [n, ang], 1e-7)
             if wellc and ok:
                 ctx.expect(abs(an2 - ang) <= 1e-9 and np.abs(ax2 - n).max() <= 1e-9, f'{route}: parameters', key, [ax2, an2], [n, ang], 1e-9)
+            elif ok and 1e-7 <= ang < 1e-3:
+                # small angles: the matrix carries the angle in its off-diagonal elements to full relative precision; a round trip that returns
+                # 1e-6 rad for 1e-6 rad to six digits is demanded (an arccos of the trace cannot do that)
+                ctx.expect(abs(an2 - ang) <= 1e-6 * ang and np.abs(ax2 - n).max() <= 1e-6, f'{route}: small angle returned to six digits', key, [ax2, an2], [n, ang], 1e-6 * ang)
         # exp(log q) = q
         Qq = Quaternion(qref.copy())
         lg = np.asarray(Qq.logarithm)
